@@ -2,7 +2,8 @@
 
 Small-scope enumeration: ALL functions `f(n)` made of one initialisation of the untyped local x (int / bool / float
 literals, the argument, results of typed helpers such as len(), ord(), float(), abs(), a comparison) followed by
-every sequence of <= 2 (thorough: all inits, plus triples over a reduced set) transformer templates: loops that grow x
+every sequence of <= 2 transformer templates (thorough adds: every init x every single transformer, the 7 extra inits x all
+pairs over 12 transformers, triples over 4 transformers for 4 inits; ~5k programs): loops that grow x
 (x = x * 2, x *= 2, x += x, x = x * x, x = x * 10 + d, x = x * 3 + 1, x += i * i with a while counter, Fibonacci
 tuple swap, x += 0.5), conditional rebinds to another type (float / int / str on a branch), / // ** % << unary minus,
 constant offsets around 2**31, bool mixing, reuse of x as a loop variable or as a while counter, capture of x by a
@@ -23,7 +24,7 @@ LEVEL_TEXT = ('Every function made of one initialisation of an untyped local (li
               'sequence of <= 2 transformer templates (21 quick / 31 thorough: growing loops, hash-style loops with the variable under '
               '^ | & inside a multiplication, conditional rebinds to other types, '
               'division/power/shift/modulo, offsets around 2**31, bool mixing, loop-variable reuse, closure capture; thorough adds '
-              'all inits and triples over a reduced set) is compiled with infer_types=None and with infer_types=False and run '
+              'all inits x single transformers, 7 more inits x pairs over 12 transformers, triples over 4 transformers) is compiled with infer_types=None and with infer_types=False and run '
               'for every iteration count in {0,1,2,31,32,62,63,64,65,100}; the (type, value) outcome or exception type of the two '
               'builds must be identical for every input (CPython on the same source tells which build deviates).')
 LEVEL_NOTE = ('Template sequences of bounded length over one main variable (plus loop counters); no explicit C types (outside the '
@@ -91,19 +92,30 @@ TRIPLE_SET = ('dbl', 'sq', 'fib', 'toint', 'tofloat', 'div', 'addc', 'loopvar')
 def family(tier):
     """List of (tag, function body lines)."""
     q = tier == 'quick'
-    inits = INITS[:N_INIT_Q] if q else INITS
-    trans = TRANS[:N_TRANS_Q] if q else TRANS
     out = []
-    for iname, isrc in inits:
+    trans = TRANS[:N_TRANS_Q]
+    for iname, isrc in INITS[:N_INIT_Q]:
         for t1n, t1 in trans + LAST_ONLY:
             out.append(('%s;%s' % (iname, t1n), [isrc, t1]))
         for (t1n, t1), (t2n, t2) in itertools.product(trans, trans + LAST_ONLY):
             out.append(('%s;%s;%s' % (iname, t1n, t2n), [isrc, t1, t2]))
     if not q:
-        tr = [t for t in TRANS if t[0] in TRIPLE_SET]
+        # thorough (sized from the measured rate: 14.4k programs took 45 min, the bound is ~5k): every init with every single
+        # transformer, the 7 extra inits with all pairs over the first 12 transformers, the 4 basic inits with all triples
+        # over 4 transformers
+        seen = set(t for t, _ in out)
+        extra = []
+        for iname, isrc in INITS:
+            for t1n, t1 in TRANS + LAST_ONLY:
+                extra.append(('%s;%s' % (iname, t1n), [isrc, t1]))
+        for iname, isrc in INITS[N_INIT_Q:]:
+            for (t1n, t1), (t2n, t2) in itertools.product(TRANS[:12], TRANS[:12] + LAST_ONLY):
+                extra.append(('%s;%s;%s' % (iname, t1n, t2n), [isrc, t1, t2]))
+        tr = [t for t in TRANS if t[0] in ('dbl', 'fib', 'toint', 'addc')]
         for iname, isrc in INITS[:4]:
             for a, b, c in itertools.product(tr, tr, tr):
-                out.append(('%s;%s;%s;%s' % (iname, a[0], b[0], c[0]), [isrc, a[1], b[1], c[1]]))
+                extra.append(('%s;%s;%s;%s' % (iname, a[0], b[0], c[0]), [isrc, a[1], b[1], c[1]]))
+        out.extend(e for e in extra if e[0] not in seen)
     return [(tag, lines) for tag, lines in out if not _bitwise_on_float(tag)]
 
 
